@@ -16,7 +16,7 @@ from concurrent.futures import ThreadPoolExecutor
 
 VERIF = os.path.dirname(os.path.dirname(os.path.abspath(__file__)))
 REPO = os.environ.get("VERIF_REPO", "/repo")
-BUILD = os.path.join(VERIF, "build")
+BUILD = os.environ.get("VERIF_BUILD", os.path.join(VERIF, "build"))
 GUARD = "LIBPHYSICA_VERIF"
 
 FLAVOURS = {
@@ -150,10 +150,15 @@ def ensure_driver(flavour, name, extra_flags=""):
         src = os.path.join(VERIF, "harness", name + ".cpp")
         hd = headers_digest([os.path.join(VERIF, "harness", "common"), os.path.join(REPO, "include")])
         defs = ("-D%s" % GUARD) if hooks else ""
-        cmd = "%s -std=gnu++17 %s %s %s -DVERIF_FLAVOUR='\"%s\"' -I%s/include -I%s -I%s/harness/common" % (
-            cxx, flags, defs, extra_flags, flavour, REPO, gen, VERIF)
+        cmd = "%s -std=gnu++17 %s %s %s -DVERIF_FLAVOUR='\"%s\"' -I%s/include -I%s -I%s/harness/common -I%s/harness" % (
+            cxx, flags, defs, extra_flags, flavour, REPO, gen, VERIF, VERIF)
         exe = os.path.join(out, name)
-        dg = sha(read(src), hd, cmd, libdigest)
+        local = b""
+        for inc in re.findall(r'#include "([^"]+)"', read(src).decode("utf-8", "replace")):
+            ip = os.path.join(VERIF, "harness", inc)
+            if os.path.exists(ip):
+                local += read(ip)   # driver-group headers next to the driver
+        dg = sha(read(src), local, hd, cmd, libdigest)
         stamp = exe + ".sha"
         if not (os.path.exists(exe) and os.path.exists(stamp) and read(stamp).decode() == dg):
             run("%s %s %s -lconfig++ -o %s" % (cmd, src, lib, exe), name)
